@@ -13,6 +13,7 @@ import (
 	"strings"
 
 	"github.com/carapace-sh/carapace"
+	"github.com/carapace-sh/carapace/pkg/cache/key"
 	"github.com/spf13/cobra"
 )
 
@@ -150,6 +151,21 @@ func (b *builder) build(x *xExpr) carapace.Action {
 		return carapace.ActionCobra(func(cmd *cobra.Command, args []string, toComplete string) ([]string, cobra.ShellCompDirective) {
 			return persistent, cobra.ShellCompDirectiveFilterFileExt
 		})
+	case "execute":
+		// a member that runs an embedded command of its own through ActionExecute
+		id := itoa(x.N)
+		cmd := &cobra.Command{Use: "emb" + id, Run: func(*cobra.Command, []string) {}}
+		carapace.Gen(cmd).PositionalAnyCompletion(carapace.ActionValues("ex"+id+"a", "ex"+id+"b"))
+		return carapace.ActionCallback(func(c carapace.Context) carapace.Action {
+			c.Args, c.Value = []string{"x"}, ""
+			return carapace.ActionExecute(cmd).Invoke(c).ToA()
+		})
+	case "cached":
+		// a member whose callback sits behind the file cache (one call site, the key is the member's number)
+		id := itoa(x.N)
+		return carapace.ActionCallback(func(c carapace.Context) carapace.Action {
+			return carapace.ActionValues("ca" + id)
+		}).Cache(time.Minute, key.String("member", id))
 	case "timedEcho":
 		// answers `<value>-done`, slowly when the value starts with `slow`; under a Timeout that the slow answers miss
 		return carapace.ActionCallback(func(c carapace.Context) carapace.Action {
@@ -432,9 +448,35 @@ func runHistory(raw json.RawMessage) interface{} {
 	return out
 }
 
+func hasKind(x *xExpr, k string) bool {
+	if x == nil {
+		return false
+	}
+	if x.K == k {
+		return true
+	}
+	for _, y := range append(append([]*xExpr{x.E, x.A, x.Bb}, x.Es...)) {
+		if hasKind(y, k) {
+			return true
+		}
+	}
+	return false
+}
+
 func runHistoryOnce(raw json.RawMessage) interface{} {
 	var in historyIn
 	must(json.Unmarshal(raw, &in))
+	for _, x := range in.Table {
+		if hasKind(x, "cached") {
+			dir, err := os.MkdirTemp("", "verif-bcache")
+			must(err)
+			defer os.RemoveAll(dir)
+			old := os.Getenv("XDG_CACHE_HOME")
+			os.Setenv("XDG_CACHE_HOME", dir)
+			defer os.Setenv("XDG_CACHE_HOME", old)
+			break
+		}
+	}
 	carapace.VerifSetMatch(in.CI)
 	defer carapace.VerifSetMatch(false)
 	b := &builder{}
@@ -473,7 +515,41 @@ func runHistoryOnce(raw json.RawMessage) interface{} {
 		}
 		fresh = append(fresh, invokeSafe(fb.table[s.E], s.Ctx.toContext()))
 	}
-	return map[string]interface{}{"results": results, "fresh": fresh, "ctxChanged": ctxChanged}
+	out := map[string]interface{}{"results": results, "fresh": fresh, "ctxChanged": ctxChanged}
+	// a Batch of members without a model (embedded commands, cached callbacks): its candidates are those the members
+	// yield when invoked one after the other
+	for i, s := range in.Steps {
+		top := in.Table[s.E]
+		if top.K == "batch" && top.Opaque && results[i].Panic == "" {
+			want := map[string]bool{}
+			for _, m := range top.Es {
+				fb := &builder{}
+				for _, x := range in.Table {
+					fb.table = append(fb.table, fb.build(x))
+				}
+				for _, v := range invokeSafe(fb.build(m), s.Ctx.toContext()).Values {
+					want[v.Value] = true
+				}
+			}
+			got := map[string]bool{}
+			for _, v := range results[i].Values {
+				got[v.Value] = true
+			}
+			if fmt.Sprint(sortedKeys(want)) != fmt.Sprint(sortedKeys(got)) {
+				out["batchUnion"] = fmt.Sprintf("step %d: batch yields %v, the members one after the other %v", i, sortedKeys(got), sortedKeys(want))
+			}
+		}
+	}
+	return out
+}
+
+func sortedKeys(m map[string]bool) []string {
+	out := []string{}
+	for k := range m {
+		out = append(out, k)
+	}
+	sort.Strings(out)
+	return out
 }
 
 // historyInChild: step i of the history alone, in a new process
@@ -1028,6 +1104,8 @@ func genRepeat(r *rng, tier string) interface{} {
 }
 
 // ---- op "batchrace": Batch scenarios for the race detector (C09); run on the -race build
+var batchRaceCount int
+
 func genBatchRace(r *rng, tier string) interface{} {
 	in := historyIn{}
 	if r.chance(12) {
@@ -1060,6 +1138,27 @@ func genBatchRace(r *rng, tier string) interface{} {
 		for i := 0; i < 3; i++ {
 			in.Steps = append(in.Steps, historyStep{E: 1, Ctx: c0})
 		}
+		return in
+	}
+	// (every command ever handed to carapace.Gen leaves an initializer in cobra's global list, and every Execute runs the whole
+	// list: the scenario is generated among the first cases of a run only, or the run time grows with the square of its length)
+	batchRaceCount++
+	if batchRaceCount <= 3000 && r.chance(10) {
+		// members that run embedded commands through ActionExecute, members behind the file cache (same and different keys)
+		members := []*xExpr{}
+		for i := 0; i < 3+r.intn(8); i++ {
+			switch r.intn(3) {
+			case 0:
+				members = append(members, &xExpr{K: "execute", N: i})
+			case 1:
+				members = append(members, &xExpr{K: "cached", N: r.intn(3)})
+			default:
+				members = append(members, &xExpr{K: "plain", Ps: []string{"pl" + itoa(i)}})
+			}
+		}
+		in.Table = []*xExpr{{K: "batch", Es: members, Opaque: true}}
+		c := xCtx{}
+		in.Steps = []historyStep{{E: 0, Ctx: c}, {E: 0, Ctx: c}}
 		return in
 	}
 	leaf := func() *xExpr { return genLeaf(r) }
